@@ -30,6 +30,7 @@ G_N = '%import .mid (x, B)\nstart: x+\nother: B+\n%ignore " "\n%ignore "("\n%ign
 MID = '%import .leaf (A)\nx: A [B] "!"\nB: "b"\n'
 LEAF = ['A: "a"\n', 'A: "a" | "A"\n', 'A: /a+/\n', 'A: "A"\n']                                                    # versions 0 and 3 have the same size
 G_K2 = 'start: (X | Y | KW | ID)+\nother: ID+\nX.2: /a/\nY: /a|b/\nKW.-1: "bb"\nID: /b+/\n%ignore " "\n%ignore "!"\n%ignore "("\n%ignore ")"\n%ignore "c"\n'
+G_PX = G_A + 'HASH: /#[a-z]*/\n'                 # a terminal no rule uses: kept only if the post-lexer asks for it (always_accept)
 PKG_SUB = F.SIMPKG_DIR + '/grammars/sub.lark'
 SUB = ['A: "a"\nB: "b"\n', 'A: "a" | "A"\nB: "bb"\n', 'A: /a+/\nB: "b"\n', 'A: "a"\nB: "c"\n']       # versions 0 and 3 have the same size
 
@@ -60,7 +61,15 @@ POOL = {
     'S2': dict(g=G_I, o={}, cwd=V + 'p2', imports=[V + 'p2/sub.lark']),
     'P1': dict(g=G_IL, o={'import_paths': [V + 'p1']}, imports=[V + 'p1/sub.lark']),          # same text, the import_paths option differs
     'P2': dict(g=G_IL, o={'import_paths': [V + 'p2']}, imports=[V + 'p2/sub.lark']),
-    'P21': dict(g=G_IL, o={'import_paths': [V + 'p2', V + 'p1']}, imports=[V + 'p2/sub.lark']),
+    'P21': dict(g=G_IL, o={'import_paths': [V + 'p2', V + 'p1']}, imports=[V + 'p2/sub.lark', V + 'p1/sub.lark']),      # (candidates in search order: the first that exists is imported)
+    'P31': dict(g=G_IL, o={'import_paths': [V + 'p3', V + 'p1']}, imports=[V + 'p3/sub.lark', V + 'p1/sub.lark']),      # p3/sub.lark does not exist at first: a file created later shadows the recorded one
+    'X': dict(g=G_PX, o={}),
+    'X-acc': dict(g=G_PX, o={}, user={'postlex': 'acc'}, build_user='postlex.always_accept=HASH'),      # the post-lexer keeps HASH alive and swallows it
+    'X-noacc': dict(g=G_PX, o={}, user={'postlex': 'noacc'}),                                           # a post-lexer that asks for nothing: same parser as X
+    'A-et': dict(g=G_A, o={}, user={'edit_terminals': 'widen'}, build_user='edit_terminals=widen'),     # a module-level (picklable) callback that rewrites terminal C
+    'A-etl': dict(g=G_A, o={}, user={'edit_terminals': 'widen-closure'}, build_user='edit_terminals=widen'),   # the same edit by a closure (not picklable)
+    'E1': dict(g=G_A + '// ', o={'keep_all_tokens': True}, opts_first=True),       # the key must tell where the grammar text ends and the options begin:
+    'E2': dict(g=G_A + '// keep_all_tokensTrue', o={}),                            # ... a trailing comment that spells an option
     'G1': dict(g=G_IL, o={'import_paths': ['@simpkg']}, imports=[PKG_SUB]),                  # the library is a Python package: FromPackageLoader, used_files holds a PackageResource that can change
     'G1P': dict(g=G_IL, o={'import_paths': ['@simpkg', V + 'p1']}, imports=[PKG_SUB]),        # same parser: the package comes first in the search order
     'A-regex': dict(g=G_A, o={'regex': True}),
@@ -83,10 +92,15 @@ POOL = {
 }
 OPTION_DEFAULTS = {'maybe_placeholders': True, 'keep_all_tokens': False, 'propagate_positions': False, 'lexer': 'contextual', 'start': ['start'],
                    'g_regex_flags': 0, 'use_bytes': False, 'strict': False, 'regex': False, 'priority': 'normal', 'import_paths': []}
-IMPORT_FILES = [V + 'p1/sub.lark', V + 'p2/sub.lark', V + 'p1/leaf.lark', PKG_SUB]
-QUICK_KEYS = [k for k in POOL if k != 'BIG']
+# (p3/sub.lark is never created by a sampled history: a file that appears EARLIER in the search order than the recorded import is the
+#  open finding 'import shadowed'; it is reproduced by replays/known/C12-import-shadowed.json)
+IMPORT_FILES = [V + 'p1/sub.lark', V + 'p2/sub.lark', V + 'p1/leaf.lark', PKG_SUB, V + 'p2/sub.lark']
+# entries with an edit_terminals callback meet only each other on a cache path (the callback is outside the key and not re-applied on a
+# hit: the open finding 'edit_terminals not in key', reproduced by replays/known/C12-edit-terminals-not-in-key.json)
+ET_KEYS = ['A-et', 'A-etl']
+QUICK_KEYS = [k for k in POOL if k != 'BIG' and k not in ET_KEYS]
 CONC_KEYS = [k for k in QUICK_KEYS if not POOL[k].get('cwd')]      # the simulated cwd is per process; concurrent procs share the facade
-TEXTS = ['a b c !', 'a !', 'a c !', '( a b ! )', 'a b', 'b b', 'A !', 'a bb !', 'a b cc ! a !', '', 'a ! ?', 'aa !', 'k001 a ! k119 !', 'k120 !']
+TEXTS = ['a #x !', 'a b cd !', 'a ccdd !', 'a b c !', 'a !', 'a c !', '( a b ! )', 'a b', 'b b', 'A !', 'a bb !', 'a b cc ! a !', '', 'a ! ?', 'aa !', 'k001 a ! k119 !', 'k120 !']
 LARK_VERSIONS = ['1.3.1', '1.3.2', '9.9.9']
 PY_VERSIONS = [None, [3, 11], [3, 13]]
 ERRNOS = ['EIO', 'ENOSPC', 'EACCES', 'EROFS', 'EMFILE', 'EISDIR', 'ENOENT', 'EDQUOT', 'ESTALE']
@@ -98,7 +112,7 @@ class Env:
     """the mutable environment a lifetime runs in (besides the cache files)"""
 
     def __init__(self):
-        self.sub = {V + 'p1/sub.lark': 0, V + 'p2/sub.lark': 1, V + 'p1/leaf.lark': 0, PKG_SUB: 2}
+        self.sub = {V + 'p1/sub.lark': 0, V + 'p2/sub.lark': 1, V + 'p1/leaf.lark': 0, PKG_SUB: 2, V + 'p3/sub.lark': None}     # None: the file does not exist
         self.lark_version = '1.3.1'
         self.py = None
         self.keep_mtime = set()      # files whose next edit keeps the old modification time (cp -p, rsync -t, os.utime)
@@ -112,8 +126,10 @@ class Env:
         if isinstance(o['start'], str):
             o['start'] = [o['start']]
         o.pop('cache_grammar', None)              # (stores more in the file, denotes the same parser)
-        return ('g%x' % (jhash(k['g']) & 0xffffff), repr(sorted(o.items(), key=lambda kv: kv[0])), tuple(self.sub[p] % 4 for p in k.get('imports', ())),
-                self.lark_version, tuple(self.py) if self.py else None)
+        cands = k.get('imports', ())
+        imported = (next((self.sub[p] % 4 for p in cands if self.sub.get(p) is not None), 'missing'),) if cands else ()
+        return ('g%x' % (jhash(k['g']) & 0xffffff), repr(sorted(o.items(), key=lambda kv: kv[0])), imported,
+                self.lark_version, tuple(self.py) if self.py else None, k.get('build_user'))
 
 
 class C12(Check):
@@ -178,13 +194,15 @@ class C12(Check):
         return faults, aft, load_exc
 
     def gen_plan(self, rng, tier):
-        keys = QUICK_KEYS if (tier == 'quick' or rng.random() < 0.85) else list(POOL)
+        keys = QUICK_KEYS if (tier == 'quick' or rng.random() < 0.85) else [k_ for k_ in POOL if k_ not in ET_KEYS]
         # a history concentrates on a few keys and one or two paths, so that stale files actually meet other keys
         nk = rng.choice([1, 2, 2, 3, 4])
         hk = [rng.choice(keys) for _ in range(nk)]
         if rng.random() < 0.3:
-            hk += rng.choice([['I1', 'I2'], ['O1', 'O2'], ['S1', 'S2'], ['O1', 'I1', 'S1'], ['P1', 'P2'], ['P2', 'P21', 'P1'], ['G1', 'G1'], ['G1', 'G1P', 'P1'], ['K', 'K-inv', 'K-basic'], ['N1', 'N1'], ['A', 'A-cb', 'A-tr'], ['K2', 'K2-none', 'K2-inv', 'K2-normal'],
+            hk += rng.choice([['I1', 'I2'], ['O1', 'O2'], ['S1', 'S2'], ['O1', 'I1', 'S1'], ['P1', 'P2'], ['P2', 'P21', 'P1'], ['G1', 'G1'], ['G1', 'G1P', 'P1'], ['P31', 'P31'], ['P21', 'P21'], ['X', 'X-acc', 'X-noacc'], ['E1', 'E2', 'A-kat'], ['K', 'K-inv', 'K-basic'], ['N1', 'N1'], ['A', 'A-cb', 'A-tr'], ['K2', 'K2-none', 'K2-inv', 'K2-normal'],
                               ['A', 'A-ph-explicit', 'A-noflags', 'A-start-list', 'A-noph']])
+        if rng.random() < 0.04:
+            hk = [rng.choice(ET_KEYS) for _ in range(3)]
         paths = ['c1'] if rng.random() < 0.7 else ['c1', 'c2']
         if rng.random() < 0.15:
             paths.append(True)
@@ -197,7 +215,7 @@ class C12(Check):
             if i > 0 and r < 0.35:
                 env.append({'kind': 'content', 'path': rng.choice(paths), 'fault': self._gen_content_fault(rng)})
             elif r < 0.45:
-                env.append({'kind': 'edit_import', 'file': rng.choice(IMPORT_FILES), 'version': rng.choice([0, 1, 2, 3, 3, 0]),
+                env.append({'kind': 'edit_import', 'file': rng.choice(IMPORT_FILES), 'version': rng.choice([0, 1, 2, 3, 3, 0]),      # (None = the file is deleted: only in replays/known/C12-import-deleted*.json, an open finding)
                             'keep_mtime': rng.random() < 0.35})
             elif r < 0.53:
                 env.append({'kind': 'lark_version', 'v': rng.choice(LARK_VERSIONS)})
@@ -232,6 +250,9 @@ class C12(Check):
     # ------------------------------------------------------------------ environment handling
     def _apply_env(self, env, disk):
         for p, v in env.sub.items():
+            if v is None:
+                disk.remove_text(p)
+                continue
             disk.set_text(p, (LEAF if p.endswith('leaf.lark') else SUB)[v % 4], preserve_mtime=p in env.keep_mtime)
         env.keep_mtime.clear()
         disk.set_text(V + 'p1/n.lark', G_N)
@@ -316,6 +337,15 @@ class C12(Check):
                 def C(self, t):
                     return len(t)
             out['transformer'] = Count()
+        if spec.get('postlex'):
+            from sim import userobjs
+            out['postlex'] = userobjs.SwallowHash() if spec['postlex'] == 'acc' else userobjs.PassThrough()
+        if spec.get('edit_terminals') == 'widen':
+            from sim import userobjs
+            out['edit_terminals'] = userobjs.widen_c
+        elif spec.get('edit_terminals') == 'widen-closure':
+            from sim import userobjs
+            out['edit_terminals'] = lambda t: userobjs.widen_c(t)
         return out
 
     def _new(self, keyname, **extra):
@@ -333,6 +363,11 @@ class C12(Check):
         self.facade.cwd = k.get('cwd')
         if k.get('open'):
             return Lark.open(k['open'], parser='lalr', **kw)
+        if k.get('opts_first'):
+            ordered = {o_: kw[o_] for o_ in k['o']}             # (the order in which the caller spells the keyword arguments:
+            ordered['parser'] = 'lalr'                          #  the plain options, then parser=, then the rest)
+            ordered.update(kw)
+            return Lark(g, **ordered)
         return Lark(g, parser='lalr', **kw)
 
     def _probe(self, p, keyname, cap=400_000):
@@ -839,7 +874,15 @@ class C12(Check):
             return '%s:concurrent[%s]' % (violation['kind'], ','.join(p['key'] for p in plan['procs']))
         parts = []
         for l in plan['lives']:
-            evs = '+'.join((e['kind'] if e['kind'] != 'content' else e['fault']['kind']) for e in l.get('env', []))
+            def evname(e):
+                if e['kind'] == 'content':
+                    return e['fault']['kind']
+                if e['kind'] == 'edit_import' and e.get('version') is None:
+                    return 'delete-import'                      # (kept apart from an edit: open findings are matched by signature)
+                if e['kind'] == 'edit_import' and e.get('file') == V + 'p3/sub.lark':
+                    return 'create-shadowing-import'
+                return e['kind']
+            evs = '+'.join(evname(e) for e in l.get('env', []))
             fl = '+'.join(sorted({f['kind'] for f in (l.get('faults') or {}).values()}))
             parts.append('%s%s%s%s' % ((evs + '>') if evs else '', l['key'], ('!' + fl) if fl else '', '!loadexc' if l.get('load_exc') else ''))
         return '%s:[%s]' % (violation['kind'], ','.join(parts))
@@ -848,7 +891,8 @@ class C12(Check):
         # regressions of the fixed findings: minimised histories (and schedules) kept under replays/fixed/
         import json, glob
         out = []
-        for path in sorted(glob.glob(os.path.join(core.VERIF, 'replays', 'fixed', 'C12-*.json'))):
+        # ... and reproductions of the open findings (replays/known/): histories the sampled space deliberately leaves out (gen_plan)
+        for path in sorted(glob.glob(os.path.join(core.VERIF, 'replays', 'fixed', 'C12-*.json')) + glob.glob(os.path.join(core.VERIF, 'replays', 'known', 'C12-*.json'))):
             d = json.load(open(path))
             out.append((os.path.basename(path)[:-5], d['plan'], d.get('decisions') or None))
         return out
